@@ -8,18 +8,39 @@ CC_PROPS = ["C01", "C02", "C05", "C06", "C08", "C09", "C11", "C12", "C13", "C14"
 
 TIERS = {
     # universe -> MaxEqs
-    "quick": {"U1": 2, "U2": 2, "U3": 2, "U4": 2, "U5": 2, "U6": 2},
-    "thorough": {"U1": 3, "U2": 3, "U3": 3, "U4": 3, "U5": 3, "U6": 3},
+    "quick": {"U1": 2, "U2": 2, "U3": 2, "U4": 2, "U5": 2, "U6": 2, "U7": 3},
+    "thorough": {"U1": 3, "U2": 3, "U3": 3, "U4": 3, "U5": 3, "U6": 3, "U7": 4},
 }
 
 
 RANDOM_UNIVERSES = {"quick": 8, "thorough": 80}
 
 
-def _one_table(u, uni, maxeqs, tag, pool_delta, workers):
+def universe_ops(uni):
+    sys.path.insert(0, UNIV)
+    import patterns
+    ops = set()
+    for t in uni["terms"]:
+        ops |= patterns.ops_of(t)
+    return ops
+
+
+def pattern_pool(uni):
+    """the patterns of universes/patterns.py whose operators all occur in the universe (others match nothing)"""
+    sys.path.insert(0, UNIV)
+    import patterns
+    ops = universe_ops(uni)
+    return [p for p in patterns.PATTERNS if patterns.ops_of(patterns.parse_pattern(p)) <= ops]
+
+
+def _one_table(u, uni, maxeqs, tag, pool_delta, workers, with_matches=False):
+    sys.path.insert(0, UNIV)
+    import patterns
     cfg = open(os.path.join(SPEC, "MC_CC.cfg")).read()
+    pats = pattern_pool(uni) if with_matches else []
     defs = {"MCN": uni["N"] + pool_delta, "MCTermPool": uni["terms"], "MCEqPool": uni["eqs"],
-            "MCMaxEqs": maxeqs, "MCInsBase": tla_set(uni["base"])}
+            "MCMaxEqs": maxeqs, "MCInsBase": tla_set(uni["base"]),
+            "MCPatterns": [patterns.parse_pattern(p) for p in pats]}
     logp, st = run_tlc_root("%s_%s" % (tag, u), "MC_CC", defs, cfg, timeout=3000, workers=workers)
     require_tlc_ok(st, logp, "MC_CC/" + u)
     us = list(tlcout.tagged_lines(logp, "UNIVERSE"))[0]
@@ -28,21 +49,35 @@ def _one_table(u, uni, maxeqs, tag, pool_delta, workers):
         raise ToolError("TLC emitted %d REPLAY lines for %d distinct states" % (len(states), st["distinct"]))
     d = os.path.dirname(logp)
     tpath = os.path.join(d, "table.json")
-    json.dump({"us": us["us"], "states": states}, open(tpath, "w"))
+    def fv(t, bound=()):
+        out = [x for x in t["sl"] if x not in bound]
+        for c in t["ch"]:
+            out += fv(c["t"], tuple(bound) + tuple(c["bd"]))
+        return sorted(set(out))
+
+    def pvars(t):
+        return sorted(({t["op"]} if t["op"].startswith("?") else set()).union(*[pvars(c["t"]) for c in t["ch"]]))
+    def names(t):
+        return sorted(set(t["sl"]).union(*[set(c["bd"]) | set(names(c["t"])) for c in t["ch"]]))
+    pobjs = []
+    for p in pats:
+        pt = patterns.parse_pattern(p)
+        pobjs.append({"text": p, "free": fv(pt), "bound": [x for x in names(pt) if x not in fv(pt)], "vars": pvars(pt)})
+    json.dump({"us": us["us"], "states": states, "patterns": pobjs}, open(tpath, "w"))
     upath = os.path.join(d, "universe.json")
     json.dump(uni, open(upath, "w"))
     st["universe_terms"] = us["n"]
     return u, (uni, tpath, st, states, upath)
 
 
-def cc_tables(tier, tag, pool_delta=0, with_random=True):
+def cc_tables(tier, tag, pool_delta=0, with_random=True, with_matches=False):
     """run TLC on every universe of the tier (hand-written U1..U6 plus seeded random ones);
     returns {uname: (uni, table_path, stats, states, universe_path)}"""
     import concurrent.futures
     out = {}
     for u, maxeqs in TIERS[tier].items():
         uni = json.load(open(os.path.join(UNIV, u + ".json")))
-        k, v = _one_table(u, uni, maxeqs, tag, pool_delta, None)
+        k, v = _one_table(u, uni, maxeqs, tag, pool_delta, None, with_matches)
         out[k] = v
         log("TLC %s: %d distinct states, %d transitions, universe %d terms, %.1fs" %
             (u, v[2]["distinct"], v[2]["generated"], v[2]["universe_terms"], v[2]["wall_s"]))
@@ -62,7 +97,7 @@ def cc_tables(tier, tag, pool_delta=0, with_random=True):
             jobs.append((uni["name"], uni, min(len(eqs), 3 if tier == "quick" else 4)))
         t0 = time.time()
         with concurrent.futures.ThreadPoolExecutor(max_workers=5) as ex:
-            for k, v in ex.map(lambda j: _one_table(j[0], j[1], j[2], tag, pool_delta, 3), jobs):
+            for k, v in ex.map(lambda j: _one_table(j[0], j[1], j[2], tag, pool_delta, 3, with_matches), jobs):
                 out[k] = v
         log("TLC %d random universes (seed %d): %d states in %.1fs" %
             (len(jobs), seed(), sum(out[j[0]][2]["distinct"] for j in jobs), time.time() - t0))
@@ -172,9 +207,24 @@ def confirm_c01(findings, tables):
 
 def run_cc(prop, tier):
     t0 = time.time()
+    mine, cov, tables = collect_cc(prop, tier)
+    finish(prop, tier, t0, mine, cov, triggers=make_triggers(tables), assumptions=CC_ASSUMPTIONS)
+
+
+CC_ASSUMPTIONS = [
+    "TLC explored the bounded model exhaustively (constants above); the Rust code is only claimed to agree "
+    "with the specification on the behaviours replayed",
+    "name pool adequacy N >= names per equation + 1 (DESIGN 3.3); C01 alarms are re-confirmed with a larger pool",
+]
+
+
+def collect_cc(prop, tier):
+    """explore the SlottedCC universes of the tier, replay every state into the real e-graph and return
+    (findings of `prop`, coverage, tables)"""
     variants = ["default", "checks"] if prop == "C08" else ["default"]
     namings = "all" if prop == "C11" else "rotate"
-    tables = cc_tables(tier, prop)
+    # C04 / C05: TLC also emits the complete expected match sets of the pattern pool (EMatch.tla)
+    tables = cc_tables(tier, prop, with_matches=prop in ("C04", "C05"))
     findings, summaries = [], []
     for variant in variants:
         for u, (uni, tpath, st, states, upath) in tables.items():
@@ -285,8 +335,16 @@ def run_cc(prop, tier):
         "library_variants": variants, "namings": namings,
     }
     cov.update(extra_cov)
-    finish(prop, tier, t0, mine, cov, triggers=make_triggers(tables), assumptions=[
-        "TLC explored the bounded model exhaustively (constants above); the Rust code is only claimed to agree "
-        "with the specification on the behaviours replayed",
-        "name pool adequacy N >= names per equation + 1 (DESIGN 3.3); C01 alarms are re-confirmed with a larger pool",
-    ])
+    if prop in ("C04", "C05"):
+        cov["match_sets"] = {
+            "what": "spec/EMatch.tla: for every state TLC computes the complete set of ground matches of every pattern of the pool "
+                    "(orbit-least form under the pool bijections that fix the pattern's free slots, admissible = capture avoiding); "
+                    "ematch_all's substitutions are grounded, mapped to specification classes and compared as sets: "
+                    "reported \\subseteq expected is C05, expected \\subseteq reported is C04 (judged only in states without redundant slots)",
+            "patterns": {u: len(pattern_pool(t[0])) for u, t in tables.items()},
+            "match_sets_compared": sum(s.get("match_sets_compared", 0) for s in summaries),
+            "ground_matches_compared": sum(s.get("ground_matches_compared", 0) for s in summaries),
+            "expected_ground_matches": sum(len(m) for t in tables.values() for st_ in t[3] for m in st_.get("mt", [])),
+            "states_in_scope_of_C04": sum(1 for t in tables.values() for st_ in t[3] if st_.get("nored", True)),
+            "matches_not_groundable_in_pool": sum(s.get("matches_not_groundable_in_pool", 0) for s in summaries)}
+    return mine, cov, tables
